@@ -135,7 +135,7 @@ def run_config(H, cfg, tier):
                 except core.Abort:
                     pass
             # shadow validation: the model of the path condition through the real code
-            if (not has_sat) and getattr(H, "SHADOW", True) and (completed - 1) % shadow_every == 0:
+            if (not has_sat) and getattr(H, "SHADOW", True) and not cfg.get("_noshadow") and (completed - 1) % shadow_every == 0:
                 try:
                     mdl = p.ctx.get_model()
                     vals = {n: model_value(mdl, c) for n, (_, c) in m.inputs.items()}
